@@ -14,6 +14,7 @@ func init() {
 				{Harness: "c08.cycles", Mode: "plain", Shards: 16, GC: "on", HangSeconds: 30, MaxRSS: 3072},
 				{Harness: "c08.deep", Mode: "plain", Shards: 8, GC: "on"},
 				{Harness: "c08.liveness", Mode: "plain", Shards: 4, GC: "on"},
+				{Harness: "c08.windows", Mode: "plain", Shards: 2, GC: "on"},
 			}
 		},
 	})
